@@ -8,13 +8,13 @@ P = {}
 P['F0'] = base(profile="pinned/F0", buses=[{"name": "b0"}],
     handlers=[A("b0", "E0", [["dispatch_await", "b0", "E1", {}, "x"]]), A("b0", "E1", []), A("b0", "E2", [])],
     callers=[{"prog": [["dispatch", "b0", "E0", {}, "p"], ["dispatch", "b0", "E2", {}, "u"], ["await", "p"]]}])
-P['F1'] = base(profile="pinned/F1", buses=[{"name": "b0"}, {"name": "b1"}],
+P['_F1_hand'] = base(profile="pinned/F1", buses=[{"name": "b0"}, {"name": "b1"}],
     handlers=[A("b0", "E0", [["dispatch", "b1", "E1", {}, "x"], ["yield", 1], ["await", "x"]]), A("b1", "E1", [])],
     callers=[{"prog": [["dispatch_await", "b0", "E0", {}, "p"]]}])
 P['F2'] = base(profile="pinned/F2", buses=[{"name": "b0"}], max_depth=3,
     handlers=[A("b0", "*", [["dispatch", "b0", "E0", {}, "x"]])],
     callers=[{"prog": [["dispatch_await", "b0", "E0", {}, "p"]]}])
-P['F4'] = base(profile="pinned/F4", buses=[{"name": "b0"}, {"name": "b1"}],
+P['F4_c08'] = base(profile="pinned/F4_c08", buses=[{"name": "b0"}, {"name": "b1"}],
     handlers=[{"bus": "b0", "kind": "forward", "to": "b1", "pattern": "*"}, A("b1", "E0", [["pause", 0.01]])],
     callers=[{"prog": [["dispatch_await", "b0", "E0", {}, "p"]]}])
 P['F5b'] = base(profile="pinned/F5b", buses=[{"name": "b0"}],
@@ -26,7 +26,7 @@ P['F9'] = base(profile="pinned/F9", buses=[{"name": "b0"}, {"name": "b1"}],
 P['F11'] = base(profile="pinned/F11", buses=[{"name": "b0", "max_history": 2}],
     handlers=[A("b0", "E0", [["dispatch", "b0", "E1", {}, "x"], ["dispatch", "b0", "E1", {}, "y"], ["dispatch", "b0", "E1", {}, "z"]]), A("b0", "E1", [])],
     callers=[{"prog": [["dispatch_await", "b0", "E0", {}, "p"]]}])
-P['F14'] = base(profile="pinned/F14", buses=[{"name": "b0"}, {"name": "b1"}],
+P['_F14_hand'] = base(profile="pinned/F14", buses=[{"name": "b0"}, {"name": "b1"}],
     handlers=[A("b0", "E0", [["dispatch", "b1", "E2", {}, "u1"], ["yield", 1], ["dispatch", "b1", "E2", {}, "u2"], ["dispatch_await", "b1", "E1", {}, "c"]]),
               A("b1", "E1", []), A("b1", "E2", [])],
     callers=[{"prog": [["dispatch_await", "b0", "E0", {}, "p"]]}])
@@ -35,5 +35,6 @@ P['F15'] = base(profile="pinned/F15", buses=[{"name": "b0", "parallel": True}],
               A("b0", "E1", [["pause", 0.05]]), A("b0", "E2", [["pause", 0.05]])],
     callers=[{"prog": [["dispatch_await", "b0", "E0", {}, "p"]]}])
 for k, v in P.items():
+    if k.startswith('_'): continue
     json.dump(v, open(f'/verif/findings/{k}.json', 'w'))
 print(sorted(P))
